@@ -823,8 +823,10 @@ def run_load_case(ctx, case, env):
             'weights': (np.arange(96) % 200 + 1).astype(np.uint8).reshape(shape),
             'weights_channel': (np.arange(32, dtype=np.float32).reshape(shape[:2]) + 1)}
     data['correlator_data'] = data['correlator_data'].astype(np.complex64)
-    chunks = {'correlator_data': ((1, 1, 1, 1), (4, 4), (3,)), 'flags': ((2, 2), (8,), (3,)),
-              'weights': ((1, 1, 1, 1), (4, 4), (3,)), 'weights_channel': ((1, 1, 1, 1), (8,))}
+    # the arrays are chunked independently, the baseline axis included
+    bl = [r.choice([(3,), (3,), (1, 2), (2, 1)]) for _ in range(3)]
+    chunks = {'correlator_data': ((1, 1, 1, 1), (4, 4), bl[0]), 'flags': ((2, 2), (8,), bl[1]),
+              'weights': ((1, 1, 1, 1), (4, 4), bl[2]), 'weights_channel': ((1, 1, 1, 1), (8,))}
     info = {}
     with dask.config.set(scheduler='synchronous'):
         for k, arr in data.items():
